@@ -8,6 +8,7 @@ import (
 	"os"
 	"path/filepath"
 	"strings"
+	"sync"
 	"testing"
 	"time"
 	"unicode/utf8"
@@ -110,10 +111,87 @@ func has(l []string, x string) bool {
 	return false
 }
 
-// TestC04Binary: the running binary over its real transports returns exactly the store library's verdict.
+type bbMgmt struct {
+	After int    `json:"after"` // performed after this probe index
+	Op    string `json:"op"`    // update | remove | readd | set-admin
+	Via   string `json:"via"`   // lib | cli | api
+	User  int    `json:"user"`
+	NewPW string `json:"newpw,omitempty"`
+}
+
+// doProbe sends one credential pair through one frontend; skip is set when the transport cannot carry the pair.
+func doProbe(a *agent, cfgFile string, listeners []string, p bbProbe) (fe, name, storeName string, got bool, detail string, terr error, skip bool, fatal string) {
+	fe = p.Frontend
+	switch {
+	case strings.HasPrefix(fe, "sasl") && (!has(listeners, "sasl") || len(p.User) > 256 || len(p.PW) > 256):
+		fe = "cli"
+	case (fe == "basic-auth" || fe == "api-authenticate") && !has(listeners, "http"):
+		fe = "cli"
+	case fe == "ldap" && !has(listeners, "ldap"):
+		fe = "cli"
+	}
+	if fe == "api-authenticate" && (!utf8.ValidString(p.PW) || !utf8.ValidString(p.User)) {
+		vlib.Excluded("JSON cannot carry non-UTF-8 bytes")
+		fe = "basic-auth"
+	}
+	if fe == "basic-auth" && strings.ContainsAny(p.User, ":") {
+		fe = "cli"
+	}
+	if fe == "cli" && (strings.ContainsRune(p.PW, 0) || strings.HasPrefix(p.PW, "-") || strings.HasPrefix(p.User, "-") || strings.ContainsRune(p.User, 0)) {
+		vlib.Excluded("CLI arguments cannot carry NUL or a leading '-'")
+		skip = true
+		return
+	}
+	name, storeName = p.User, p.User
+	if fe == "ldap" {
+		name = p.User + p.Realm
+		storeName, _, _ = strings.Cut(name, "@")
+	}
+	switch fe {
+	case "sasl":
+		got, terr = a.saslAuth(name, p.PW, 0, 0)
+	case "sasl-split":
+		// the second segment arrives in a later read; split at a field boundary or at a raw offset
+		off := p.Split
+		switch p.Split % 4 {
+		case 0:
+			off = 2 + len(name) // after the login field
+		case 1, 2:
+			off = 2 + len(name) + 2 + len(p.PW) // after the password field: service and realm come later
+		}
+		got, terr = a.saslAuth(name, p.PW, off, 30*time.Millisecond)
+	case "basic-auth":
+		var st int
+		st, terr = a.basicAuth(name, p.PW)
+		got = st == 200
+		detail = fmt.Sprint(st)
+	case "api-authenticate":
+		var st int
+		st, detail, terr = a.api("/api/authenticate", map[string]string{"username": name, "password": p.PW}, nil)
+		got = st == 200
+	case "ldap":
+		got, terr = a.ldapBind(name, p.PW)
+	case "cli":
+		st, out := cli(cfgFile, nil, "authenticate", name, p.PW)
+		got, detail = st == 0, fmt.Sprintf("exit %d: %s", st, strings.TrimSpace(out))
+		if st != 0 && st != 1 && st != 3 {
+			fatal = fmt.Sprintf("VIOLATION C04: CLI authenticate exited with %d: %s", st, out)
+		}
+	}
+	return
+}
+
+// TestC04Binary: the running binary over its real transports returns exactly the store library's verdict, in
+// every store state reached by management operations in between (made through the library, the CLI or the web
+// API), and also when the probes arrive concurrently.
 func TestC04Binary(t *testing.T) {
 	rapid.Check(t, func(t *rapid.T) {
 		c := genBBCase(t)
+		var mgmt []bbMgmt
+		for i, n := 0, rapid.IntRange(0, 3).Draw(t, "nmgmt"); i < n; i++ {
+			mgmt = append(mgmt, bbMgmt{After: rapid.IntRange(0, len(c.Probes)-1).Draw(t, "after"), Op: rapid.SampledFrom([]string{"update", "update", "remove", "readd", "set-admin"}).Draw(t, "mop"),
+				Via: rapid.SampledFrom([]string{"lib", "cli", "api"}).Draw(t, "via"), User: rapid.IntRange(0, len(c.Users)-1).Draw(t, "muser"), NewPW: fmt.Sprintf("changed-%d-pw", i)})
+		}
 		cfg := bbConfig()
 		root, base, cfgFile, err := mkStore(cfg, c.Users)
 		if err != nil {
@@ -129,78 +207,26 @@ func TestC04Binary(t *testing.T) {
 		if err != nil {
 			t.Fatalf("VERIF-INFRA %v", err)
 		}
-		for i, p := range c.Probes {
-			fe := p.Frontend
+		judge := func(i int, p bbProbe, phase string) {
 			if p.PW == "" {
-				continue
+				return
 			}
-			switch {
-			case strings.HasPrefix(fe, "sasl") && (!has(c.Listeners, "sasl") || len(p.User) > 256 || len(p.PW) > 256):
-				fe = "cli"
-			case (fe == "basic-auth" || fe == "api-authenticate") && !has(c.Listeners, "http"):
-				fe = "cli"
-			case fe == "ldap" && !has(c.Listeners, "ldap"):
-				fe = "cli"
+			before := vlib.TakeSnap(base)
+			fe, name, storeName, got, detail, terr, skip, fatal := doProbe(a, cfgFile, c.Listeners, p)
+			if skip {
+				return
 			}
-			if fe == "api-authenticate" && (!utf8.ValidString(p.PW) || !utf8.ValidString(p.User)) {
-				vlib.Excluded("JSON cannot carry non-UTF-8 bytes")
-				fe = "basic-auth"
-			}
-			if fe == "basic-auth" && strings.ContainsAny(p.User, ":") {
-				fe = "cli"
-			}
-			if fe == "cli" && (strings.ContainsRune(p.PW, 0) || strings.HasPrefix(p.PW, "-") || strings.HasPrefix(p.User, "-") || strings.ContainsRune(p.User, 0)) {
-				vlib.Excluded("CLI arguments cannot carry NUL or a leading '-'")
-				continue
-			}
-			name, storeName := p.User, p.User
-			if fe == "ldap" {
-				name = p.User + p.Realm
-				storeName, _, _ = strings.Cut(name, "@")
+			if fatal != "" {
+				t.Fatalf("%s", fatal)
 			}
 			want, _, _, _, _ := d.Authenticate(storeName, p.PW)
-			before := vlib.TakeSnap(base)
 			vlib.Eval()
-			var got bool
-			var terr error
-			detail := ""
-			switch fe {
-			case "sasl":
-				got, terr = a.saslAuth(name, p.PW, 0, 0)
-			case "sasl-split":
-				// the second segment arrives in a later read; split at a field boundary or at a raw offset
-				off := p.Split
-				switch p.Split % 4 {
-				case 0:
-					off = 2 + len(name) // after the login field
-				case 1, 2:
-					off = 2 + len(name) + 2 + len(p.PW) // after the password field: service and realm come later
-				}
-				got, terr = a.saslAuth(name, p.PW, off, 30*time.Millisecond)
-			case "basic-auth":
-				var st int
-				st, terr = a.basicAuth(name, p.PW)
-				got = st == 200
-				detail = fmt.Sprint(st)
-			case "api-authenticate":
-				var st int
-				st, detail, terr = a.api("/api/authenticate", map[string]string{"username": name, "password": p.PW}, nil)
-				got = st == 200
-			case "ldap":
-				got, terr = a.ldapBind(name, p.PW)
-			case "cli":
-				st, out := cli(cfgFile, nil, "authenticate", name, p.PW)
-				got, detail = st == 0, fmt.Sprintf("exit %d: %s", st, strings.TrimSpace(out))
-				if st != 0 && st != 1 && st != 3 {
-					t.Fatalf("VIOLATION C04: CLI authenticate exited with %d: %s", st, out)
-				}
-			}
 			if terr != nil {
 				t.Fatalf("VIOLATION C04: transport error instead of a verdict on %s for user %s: %v\nagent log:\n%s", fe, vlib.Q(name), terr, tail(a.log(), 1500))
 			}
 			if got != want {
-				t.Fatalf("VIOLATION C04: %s returned accept=%v for user %s password %s; the store's verdict for (%s) is %v [probe #%d %s] %s",
-					fe, got, vlib.Q(name), vlib.Q(p.PW), vlib.Q(storeName), want, i, p.Kind, detail)
+				t.Fatalf("VIOLATION C04: %s returned accept=%v for user %s password %s; the store's verdict for (%s) is %v [%s probe #%d %s] %s",
+					fe, got, vlib.Q(name), vlib.Q(p.PW), vlib.Q(storeName), want, phase, i, p.Kind, detail)
 			}
 			if diff := before.Diff(vlib.TakeSnap(base), true, nil); len(diff) > 0 {
 				t.Fatalf("VIOLATION C04: authentication through %s changed the store: %v", fe, diff)
@@ -209,14 +235,160 @@ func TestC04Binary(t *testing.T) {
 				t.Fatalf("VIOLATION C04: the agent died:\n%s", tail(a.log(), 2000))
 			}
 			special := strings.ContainsAny(p.PW, ":@,=+\n\r\t\"\\ ") || !utf8.ValidString(p.PW) || len(p.PW) >= 255
-			if (want && special) || (!want && p.Kind != "right") {
-				vlib.NT("c04bb", fe, p.Kind, want, special, strings.Join(c.Listeners, "+"))
+			if (want && special) || (!want && p.Kind != "right") || phase != "seq" {
+				vlib.NT("c04bb", fe, p.Kind, want, special, strings.Join(c.Listeners, "+"), phase)
 				vlib.Class("bb-probe:nontrivial")
 			}
 			vlib.Class("bb-frontend:" + fe)
 		}
+		allFrontends := func(user, pw, kind, phase string) {
+			for _, fe := range []string{"sasl", "sasl-split", "basic-auth", "api-authenticate", "ldap", "cli"} {
+				judge(-1, bbProbe{User: user, PW: pw, Kind: kind, Frontend: fe, Split: 1}, phase)
+			}
+		}
+		cur := map[string]string{}
+		for _, u := range c.Users {
+			cur[u.Name] = u.PW
+		}
+		for i, p := range c.Probes {
+			judge(i, p, "seq")
+			for _, m := range mgmt {
+				if m.After != i {
+					continue
+				}
+				u := c.Users[m.User]
+				if len(u.Name) > 100 || strings.ContainsAny(cur[u.Name], "\x00") || !utf8.ValidString(cur[u.Name]) || strings.HasPrefix(cur[u.Name], "-") {
+					vlib.Excluded("management step on a user whose name/password the CLI or JSON cannot carry")
+					continue
+				}
+				old := cur[u.Name]
+				// the credentials that are right now are seen (and accepted) by every frontend first ...
+				allFrontends(u.Name, old, "right", "before-mgmt")
+				var args []string
+				var apiPath string
+				body := map[string]any{"username": u.Name}
+				switch m.Op {
+				case "update":
+					args, apiPath = []string{"update", u.Name, m.NewPW}, "/api/update"
+					body["newpassword"] = m.NewPW
+				case "remove":
+					if u.Admin {
+						continue // keep the store valid (the first user is its only guaranteed admin)
+					}
+					args, apiPath = []string{"remove", u.Name}, "/api/remove"
+				case "readd":
+					if u.Admin {
+						continue
+					}
+					args, apiPath = []string{"remove", u.Name}, "/api/remove"
+				case "set-admin":
+					if u.Admin {
+						continue
+					}
+					args, apiPath = []string{"set-admin", u.Name, "true"}, "/api/set-admin"
+					body["admin"] = true
+				}
+				run := func(args []string, apiPath string, body map[string]any) {
+					via := m.Via
+					adm := c.Users[0]
+					if via == "api" && (!has(c.Listeners, "http") || !utf8.ValidString(cur[adm.Name]) || len(adm.Name) > 100) {
+						via = "cli"
+					}
+					switch via {
+					case "lib":
+						var err error
+						switch args[0] {
+						case "update":
+							err = d.UpdateUser(args[1], args[2])
+						case "remove":
+							d.RemoveUser(args[1])
+						case "add":
+							err = d.AddUser(args[1], args[2], false)
+						case "set-admin":
+							err = d.SetAdmin(args[1], true)
+						}
+						if err != nil {
+							t.Fatalf("VERIF-INFRA library %v: %v", args, err)
+						}
+					case "cli":
+						if st, out := cli(cfgFile, nil, args...); st != 0 {
+							t.Fatalf("VERIF-INFRA cli %v: exit %d %s", args, st, out)
+						}
+					case "api":
+						var login struct {
+							Session string `json:"session"`
+						}
+						if st, b, err := a.api("/api/authenticate", map[string]string{"username": adm.Name, "password": cur[adm.Name]}, &login); err != nil || st != 200 {
+							t.Fatalf("VERIF-INFRA admin login for the management step: %d %s %v", st, b, err)
+						}
+						body["session"] = login.Session
+						if st, b, err := a.api(apiPath, body, nil); err != nil || st != 200 {
+							t.Fatalf("VERIF-INFRA %s as admin: %d %s %v", apiPath, st, b, err)
+						}
+					}
+					vlib.Class("mgmt-via:" + via)
+				}
+				run(args, apiPath, body)
+				newpw := old
+				switch m.Op {
+				case "update":
+					newpw = m.NewPW
+					cur[u.Name] = newpw
+				case "remove":
+					delete(cur, u.Name)
+				case "readd":
+					run([]string{"add", u.Name, m.NewPW}, "/api/add", map[string]any{"username": u.Name, "password": m.NewPW, "admin": false})
+					newpw = m.NewPW
+					cur[u.Name] = newpw
+				}
+				vlib.Class("mgmt-op:" + m.Op)
+				// ... and right after the change every frontend answers for the new state
+				allFrontends(u.Name, old, "old-after-"+m.Op, "after-mgmt")
+				if newpw != old {
+					allFrontends(u.Name, newpw, "new-after-"+m.Op, "after-mgmt")
+				}
+			}
+		}
+		// concurrent phase: the same probes all at once; the store does not change meanwhile, so every one of them has a fixed verdict
+		type cres struct {
+			fe, name, storeName, detail string
+			got, skip                   bool
+			terr                        error
+		}
+		res := make([]cres, len(c.Probes))
+		var wg sync.WaitGroup
+		for i, p := range c.Probes {
+			if p.PW == "" {
+				res[i].skip = true
+				continue
+			}
+			wg.Add(1)
+			go func(i int, p bbProbe) {
+				defer wg.Done()
+				r := &res[i]
+				r.fe, r.name, r.storeName, r.got, r.detail, r.terr, r.skip, _ = doProbe(a, cfgFile, c.Listeners, p)
+			}(i, p)
+		}
+		wg.Wait()
+		for i, r := range res {
+			if r.skip {
+				continue
+			}
+			p := c.Probes[i]
+			want, _, _, _, _ := d.Authenticate(r.storeName, p.PW)
+			vlib.Eval()
+			if r.terr != nil {
+				t.Fatalf("VIOLATION C04: transport error instead of a verdict on %s for user %s among %d concurrent probes: %v\nagent log:\n%s", r.fe, vlib.Q(r.name), len(c.Probes), r.terr, tail(a.log(), 1500))
+			}
+			if r.got != want {
+				t.Fatalf("VIOLATION C04: %s returned accept=%v for user %s password %s while %d probes ran concurrently; the store's verdict for (%s) is %v [probe #%d %s] %s",
+					r.fe, r.got, vlib.Q(r.name), vlib.Q(p.PW), len(c.Probes), vlib.Q(r.storeName), want, i, p.Kind, r.detail)
+			}
+			vlib.NT("c04bb-concurrent", r.fe, p.Kind, want)
+		}
+		vlib.Class("bb-probes-concurrent")
 		vlib.Class("listeners:" + strings.Join(c.Listeners, "+"))
-		js, _ := json.Marshal(c)
+		js, _ := json.Marshal(map[string]any{"case": c, "mgmt": mgmt})
 		if len(js) < 3000 {
 			vlib.Sample(json.RawMessage(js))
 		}
